@@ -1021,7 +1021,7 @@ def h264_stream(rng, n_au=None, pre=None, lead3=False, small=False, sps_switch=F
     w_mbs, h_mbs, log2_fn = 1 + rng.below(20), 1 + rng.below(12), 4 + rng.below(4)
     n_au = n_au if n_au is not None else 1 + rng.below(5)
     pre = pre if pre is not None else (rng.below(3) if rng.chance(1, 3) else 0)
-    stream, aus = [], []
+    stream, aus, cfgs = [], [], []
     frame_num, idr_id = 3, 0
     # sps_switch: from a later IDR on the SPS (same id) has other contents (another level, same size) while
     # the PPS is repeated octet for octet
@@ -1048,23 +1048,39 @@ def h264_stream(rng, n_au=None, pre=None, lead3=False, small=False, sps_switch=F
             au += h264_sps(w_mbs, h_mbs, log2_fn, sc(), level) + h264_pps(sc())
             frame_num = 0
             idr_id += 1
+        cfgs.append(start + len(au) if idr else None)      # where the parameter sets end
         for k in range(1 + (rng.below(3) if rng.chance(1, 3) else 0)):
             au += h264_slice(idr, frame_num, idr_id, 2 * k, log2_fn, payload(), sc())
         frame_num += 1
         stream += au
         aus.append([start, len(stream), 1 if idr else 0])
-    return {"stream": stream, "aus": aus, "dims": [16 * w_mbs, 16 * h_mbs]}
+    return {"stream": stream, "aus": aus, "dims": [16 * w_mbs, 16 * h_mbs], "cfgs": cfgs}
 
 
 def hexs(bs):
     return "".join("%02x" % b for b in bs) or "-"
 
 
-def framer_exe(st, cuts, rng, out, source, raw=False, defer=None):
+def complete_exe(st, split, out, source):
+    """The input flow is flagged flow.complete: one buffer per access unit; for the access units of `split` the
+    parameter sets (delimiter, SPS, PPS) travel alone in a buffer of their own in front of the picture - a range
+    that is not an access unit ([.., .., 1, 1]): the framer learns the parameter sets and outputs nothing."""
+    ranges = []
+    for i, (a, b, idr) in enumerate(st["aus"]):
+        c = st["cfgs"][i]
+        if i in split and c is not None and a < c < b:
+            ranges += [[a, c, 1, 1], [c, b, 0, 0]]
+        else:
+            ranges.append([a, b, idr, 0])
+    st2 = dict(st, aus=ranges)
+    return framer_exe(st2, [r[0] for r in ranges[1:]], None, out, source, complete=True)
+
+
+def framer_exe(st, cuts, rng, out, source, raw=False, defer=None, complete=False):
     """cuts: increasing offsets where the stream is cut into input buffers; defer: the sink answers the flow
     format request only after that many more inputs (a sink behind a queue), None: from inside register_request."""
     stream = st["stream"]
-    cmds = (["defer %d" % defer] if defer is not None else []) + ["new " + out]
+    cmds = (["defer %d" % defer] if defer is not None else []) + (["complete"] if complete else []) + ["new " + out]
     if defer is not None:
         source += " (flow format answered %d input(s) later)" % defer
     last = 0
@@ -1106,6 +1122,19 @@ def framer_executions(rng, quick):
             exes.append(framer_exe(st, list(range(1, n)), None, out, "directed octets", defer=d))
             for step in (3, 7, 16):
                 exes.append(framer_exe(st, list(range(step, n, step)), None, out, "directed buffers of %d" % step, defer=d))
+    # the input flagged complete (whole access units per buffer), the parameter sets of some pictures
+    # travelling alone in front of them
+    for k in range(6 if quick else 60):
+        stc = h264_stream(vlib.Rng(70 + k), n_au=2 + k % 4, pre=0, small=(k % 2 == 0))
+        idrs = [i for i, a in enumerate(stc["aus"]) if a[2]]
+        for out in (("len4", "annexb") if k % 3 else ("len4", "len2", "nalu", "annexb")):
+            exes.append(complete_exe(stc, set(), out, "directed complete input"))
+            if out == "annexb":
+                # (for Annex B output the framer writes a delimiter and the parameter sets in front of a key
+                # picture that lacks them: what comes out is then not the octets that went in - not judged)
+                continue
+            exes.append(complete_exe(stc, set(idrs[:1]), out, "directed complete input, first parameter sets alone"))
+            exes.append(complete_exe(stc, set(idrs), out, "directed complete input, parameter sets alone"))
     # a stream that begins with a 3-octet start code
     for k in range(2):
         stw = h264_stream(vlib.Rng(40 + k), n_au=5, pre=0, small=True, sps_switch=True)
